@@ -1,5 +1,6 @@
 import Pyxv.Model.OpsXml
 import Pyxv.Model.OpsForm
+import Pyxv.Model.OpsSpell
 /-!
 Driver: one JSON request per line on stdin, one JSON reply per line on stdout.
 `{"op": "<name>", …}` → `{"ok": true, "v": …}` | `{"ok": false, "err": "…"}`.
@@ -7,7 +8,7 @@ Driver: one JSON request per line on stdin, one JSON reply per line on stdout.
 open Lean Pyxv
 
 def handlers : List (String → Json → Option (Except String Json)) :=
-  [Xml.opsXml, Form.opsForm]
+  [Xml.opsXml, Form.opsForm, Spell.opsSpell]
 
 def dispatch (op : String) (j : Json) : Except String Json :=
   let rec go : List (String → Json → Option (Except String Json)) → Except String Json
